@@ -88,7 +88,9 @@ class _:
 
 
 SELF = "self: Ref_Consumer"
-FETCH_FRAME = ["Consumer._request_d", "Consumer._retry_call", "Consumer._start_d", "Deferred.*", "DelayedCall.*"]
+# _do_fetch attaches handlers to a Deferred that may already have fired (a closed client fails at once): they run synchronously
+# and may change any consumer state - the frame callers may rely on is the whole consumer (checked at the unit's exit)
+FETCH_FRAME = ["Consumer.*", "Deferred.*", "DelayedCall.*", "LoopingCall.*"]
 
 
 def method(name, sig, **kw):
@@ -120,12 +122,12 @@ method("_do_fetch", "(%s) -> None" % SELF, props=["C02", "C14"],
        ensures={"one-request[C02]": "implies(old(self._request_d) is not None, n_events('FetchRequest') + n_events('OffsetRequest') "
                                     "+ n_events('OffsetFetchRequest') == 0)"})
 
-method("_handle_offset_response", "(%s, responses: List[OffsetFetchResponse]) -> None" % SELF, props=["C14", "C03"],
+method("_handle_offset_response", "(%s, responses: List[OffsetFetchResponse]) -> None" % SELF, props=["C14", "C03", "C02"],
        requires=["len(responses) == 1", "self._start_d is not None", "responses[0].offset >= -1", "self.consumer_group",
                  "not self._stopping"],
        checkpoints={"call:_do_fetch#1": {
            "delay-reset[C14]": "self.retry_delay == self.retry_init_delay and self._fetch_attempt_count == 1",
-           "resume-after-committed[C03]": "implies(responses[0].offset != -1, self._fetch_offset == responses[0].offset + 1 "
+           "resume-after-committed[C02, C03]": "implies(responses[0].offset != -1, self._fetch_offset == responses[0].offset + 1 "
                                           "and self._last_committed_offset == responses[0].offset)",
            "no-offset-stored[C14]": "implies(responses[0].offset == -1, self._fetch_offset == ite(self.auto_offset_reset == -1, -1, -2))",
        }})
@@ -289,7 +291,8 @@ SH_ENV = {"self": "Ref_Consumer", "_handle_shutdown_commit_success": "closure", 
 
 
 def shclosure(name, sig, **kw):
-    d = dict(sig=sig, props=["C13"], entry_point=True, closure_env=dict(SH_ENV))
+    # C16 relies on the same contract: a previous-generation consumer is shut down "committing its progress"
+    d = dict(sig=sig, props=["C13", "C16"], entry_point=True, closure_env=dict(SH_ENV))
     d['closure_env'].pop(name, None)
     d.update(kw)
     contract(C + "shutdown.<%s>" % name)(type('_', (), d))
@@ -302,13 +305,13 @@ shclosure("_handle_shutdown_commit_success", "(result: Any) -> None", expects=2,
 shclosure("_commit_and_stop", "(result: Any) -> Any", expects=0, external_effect=True,
           requires=["self._shutdown_d is not None", "not called(self._shutdown_d)", "self._start_d is not None", "not self._stopping",
                     "self._shuttingdown"],
-          checkpoints={"call:_handle_shutdown_commit_success#1": {"only-without-group[C13]": "not self.consumer_group"}})
+          checkpoints={"call:_handle_shutdown_commit_success#1": {"only-without-group[C13, C16]": "not self.consumer_group"}})
 
 shclosure("_handle_shutdown_commit_failure", "(failure: Ref_Failure) -> None", expects=0, private_locals=["d"],
           requires=["self._shutdown_d is not None", "not called(self._shutdown_d)", "self._start_d is not None", "not self._stopping",
                     "implies(exc_is(failure, 'OperationInProgress'), promise(failure.value.deferred) == 1)"])
 
-method("shutdown", "(%s) -> Ref_Deferred" % SELF, props=["C13"],
+method("shutdown", "(%s) -> Ref_Deferred" % SELF, props=["C13", "C16"],
        requires=["not self._stopping"],
        ensures={"refused-when-not-running-or-twice[C13]": "implies(old(self._start_d) is None or old(self._shutdown_d) is not None, "
                                                           "called(result) and failed(result))"},
